@@ -9,6 +9,7 @@
    replaying (vlib/c11.py).  Only the property theorems, each closed by `exact`, with Print Assumptions. *)
 From BM Require Import Base.Tactics Model.Layout Model.View Model.Spec Model.Iter Model.Assign Model.Compare
   Model.PtrAlgebra Proofs.LayoutProofs Proofs.ViewProofs2 Proofs.AssignProofs Proofs.PtrAlgebraProofs Proofs.PtrBoundsProofs.
+From BM Require Model.Life Proofs.LifeMonad Proofs.LifeInv Proofs.LifeOps Proofs.LifeMain Proofs.LifeFacts Proofs.PtrLifeProofs.
 Local Open Scope Z_scope.
 
 (* view programs (operations, index probes, iterator walks on begin()/end() and on elements()): the pointer-typed
@@ -143,3 +144,46 @@ Theorem C11_loops_in_bounds :
        (exists k, x = e_addr dst k /\ inb (prod szd) x) \/ (exists k, x = e_addr src k /\ inb (prod szs) x).
 Proof. exact loops_in_bounds_proved. Qed.
 Print Assumptions C11_loops_in_bounds.
+
+(* ---- lifecycle (Model/Life.v): every cell touched by construct / destroy / read / assign lies in a LIVE block ---- *)
+Module LifeC11.
+Import Model.Life Proofs.LifeMonad Proofs.LifeInv Proofs.LifeOps Proofs.LifeMain Proofs.LifeFacts Proofs.PtrLifeProofs.
+
+(* the element micro-steps (allocator_traits::construct / destroy, element read / assignment, moved-from marking) either
+   touch cell i of a live block b, or return one of EOutOfBlock / EDangling / EUnknownBlock *)
+Theorem C11_life_steps_touch_live_cells : forall cfg b i v s,
+     (forall s', construct1 b i v s = Ok tt s' -> in_live_block s b i)
+  /\ (forall s', destroy1 b i s = Ok tt s' -> in_live_block s b i)
+  /\ (forall x s', read1 cfg b i s = Ok x s' -> in_live_block s b i)
+  /\ (forall s', assign1 cfg b i v s = Ok tt s' -> in_live_block s b i)
+  /\ (c_trivial cfg = false -> forall s', mark_moved cfg b i s = Ok tt s' -> in_live_block s b i)
+  /\ (~ in_live_block s b i ->
+        (exists e, construct1 b i v s = Err e /\ access_err e) /\ (exists e, destroy1 b i s = Err e /\ access_err e)
+     /\ (exists e, read1 cfg b i s = Err e /\ access_err e) /\ (exists e, assign1 cfg b i v s = Err e /\ access_err e)).
+Proof. exact life_steps_touch_live_cells_proved. Qed.
+Print Assumptions C11_life_steps_touch_live_cells.
+
+(* hence: no history of array.hpp entry points in its documented domain (construct, copy, move, assign, swap, reextent,
+   clear, reshape, destroy ...) ever touches a cell outside a live block; the final state satisfies the ownership
+   invariant (in which every live cell index is below its block's size: live_cell_below_size) *)
+Theorem C11_life_no_access_outside_live_blocks :
+  forall cfg, (1 <= c_rank cfg)%nat -> forall (h : list lop), hist_dom cfg h (st0 None) ->
+    let '(outs, s') := run_life cfg h (st0 None) in
+    Good cfg s' /\ Forall (fun o => forall e, o = OutErr e -> ~ access_err e) outs.
+Proof. exact life_no_access_outside_live_blocks_proved. Qed.
+Print Assumptions C11_life_no_access_outside_live_blocks.
+
+(* the same with an exception injected at any fallible event, at the sites C09's partial theorem covers *)
+Theorem C11_life_no_access_outside_live_blocks_fault :
+  forall cfg, (1 <= c_rank cfg)%nat -> forall (h : list lop) (k : nat), hist_dom cfg h (st0 (Some k)) ->
+    let '(outs, s') := run_life cfg h (st0 (Some k)) in
+    (forall w, In (EvThrow w) (s_ledger s') -> ok_site w) ->
+    Good cfg s' /\ Forall (fun o => forall e, o = OutErr e -> ~ access_err e) outs.
+Proof. exact life_no_access_outside_live_blocks_fault_proved. Qed.
+Print Assumptions C11_life_no_access_outside_live_blocks_fault.
+
+Theorem C11_life_cell_below_block_size : forall cfg s b i, Good cfg s -> in_live_block s b i ->
+  exists blk, nth_error (s_blocks s) b = Some blk /\ b_live blk = true /\ Z.of_nat i < b_size blk.
+Proof. exact live_cell_below_size. Qed.
+Print Assumptions C11_life_cell_below_block_size.
+End LifeC11.
